@@ -36,6 +36,27 @@ Theorem C11_findings_name_their_file : forall cmm d f t, In t (method_smells cmm
 Proof. exact findings_name_their_file. Qed.
 Print Assumptions C11_findings_name_their_file.
 
+(* 5. IgnoreTest is reported exactly for the @Ignore annotations of a method *)
+Theorem C11_ignore_test_exact : forall cmm d f,
+    In (mkT (d_path d) "IgnoreTest" 0) (method_smells cmm d f) <->
+    exists a, In a (f_annots f) /\ an_name a = "Ignore".
+Proof. exact ignore_test_exact. Qed.
+Print Assumptions C11_ignore_test_exact.
+
+(* 6. EmptyTest as implemented: a @Test method with AT MOST ONE call after helper expansion. The property
+      says "makes no call": the two differ for exactly one call - finding D21, with its witness *)
+Theorem C11_empty_test_as_implemented : forall cmm d f,
+    In (mkT (d_path d) "EmptyTest" (p_sl (f_pos f))) (method_smells cmm d f) <->
+    (exists a, In a (f_annots f) /\ an_name a = "Test") /\
+    List.length (update_calls_for_self_call f d cmm) <= 1.
+Proof. exact empty_test_as_implemented. Qed.
+Print Assumptions C11_empty_test_as_implemented.
+
+Example C11_one_call_test_reported_empty_refuted :
+  map (fun t => (t_type t, t_line t)) (tbs_analysis [ex_one_call_class]) = [("EmptyTest", 10); ("UnknownTest", 10)].
+Proof. exact one_call_test_reported_empty_refuted. Qed.
+Print Assumptions C11_one_call_test_reported_empty_refuted.
+
 (* non-vacuity *)
 Example C11_example :
   map (fun t => (t_type t, t_line t)) (tbs_analysis [ex_test_class]) =
